@@ -67,7 +67,7 @@ def run(ctx, prefix, profiles, mc_inv, known_design=()):
     mc_steps = 5 if quick else 6
     gen_steps = 9 if quick else 12
     walk_len = 14 if quick else 20
-    walk_cap = 60 if quick else None
+    walk_cap = int(os.environ.get("VERIF_WALK_CAP", "250")) if quick else None
 
     ctx.specdir()
     # ---- 1. MC, profiles in parallel
@@ -103,7 +103,15 @@ def run(ctx, prefix, profiles, mc_inv, known_design=()):
         vf.tlc(ctx, "Path", cfg, workers=1, timeout=900, extra=["-dump", "dot,actionlabels", dot])
         g = walk.load(dot)
         os.remove(dot)
-        return prof, walk.edge_cover(g, maxlen=walk_len, seed=ctx.seed, limit=walk_cap)
+        # the whole cover is computed; if it has more walks than the cap a seeded sample is replayed (the greedy
+        # cover visits near edges first: taking its first walks would leave the deep edges out in every run)
+        ws, c, t = walk.edge_cover(g, maxlen=walk_len, seed=ctx.seed, limit=None)
+        if walk_cap is not None and len(ws) > walk_cap:
+            import random
+            rnd = random.Random(ctx.seed * 7919 + len(ws))
+            ws = rnd.sample(ws, walk_cap)
+            c = len({(w[k - 1][1] if k else "init", w[k][0], w[k][1]) for w in ws for k in range(len(w))})
+        return prof, (ws, c, t)
     with cf.ThreadPoolExecutor(max_workers=6) as ex:
         gens = list(ex.map(do_gen, profiles))
     for prof, (ws, c, t) in gens:
